@@ -276,6 +276,54 @@ ClampMin(v, mn) == IF v.k = "op" \/ mn.k = "op" THEN Opaque            \* math.M
                    ELSE IF v.k = "nan" \/ mn.k = "nan" THEN NaNV
                    ELSE IF VLess(mn, v) THEN v ELSE mn
 
+\* ------------------------------------------------------------------ histogram_quantile
+\* bucketQuantile of the pinned reference, transcribed: bucket counts are integers or NaN, upper bounds integers
+\* or +Inf, the quantile is given in tenths.  Every structural case is decided here (NaN quantile, quantile out of
+\* [0, 1], no +Inf bucket, fewer than two buckets after coalescing equal bounds, no observations, counts made
+\* monotonic, the binary search - whose predicate is not monotonic when a count is NaN - ending in the +Inf
+\* bucket or in a first bucket with a non-positive bound); the interpolated value is exact when it is an integer.
+LeParse(s) == CASE s \in {"1", "1.0", "1e0"} -> I(1) [] s \in {"2", "2.0"} -> I(2) [] s = "4" -> I(4) [] s = "10" -> I(10)
+                [] s = "0" -> I(0) [] s = "-1" -> I(-1) [] s \in {"+Inf", "Inf"} -> PInf
+                [] OTHER -> Opaque            \* not a number (also: no le label at all): the sample is skipped
+QTenths(n, val) == IF n.op = "num" /\ n.vs \in {"0.1", "0.5", "0.9"} THEN I(CASE n.vs = "0.1" -> 1 [] n.vs = "0.5" -> 5 [] OTHER -> 9)
+                   ELSE IF val.k = "i" THEN (IF val.v > 10 THEN PInf ELSE IF val.v < -10 THEN NInf ELSE I(10 * val.v)) ELSE val
+\* buckets: sequence of [ub, c] sorted by ub
+RECURSIVE HCoalesce(_)
+HCoalesce(bs) == IF Len(bs) <= 1 THEN bs
+                 ELSE LET r == HCoalesce(Front(bs))  b == Last(bs) IN
+                      IF r[Len(r)].ub = b.ub THEN [r EXCEPT ![Len(r)].c = Arith("+", @, b.c)] ELSE Append(r, b)
+RECURSIVE HMono(_, _, _)
+HMono(bs, i, mx) == IF i > Len(bs) THEN bs
+                    ELSE IF Cmp(">", bs[i].c, mx) = "T" THEN HMono(bs, i + 1, bs[i].c)
+                    ELSE IF Cmp("<", bs[i].c, mx) = "T" THEN HMono([bs EXCEPT ![i].c = mx], i + 1, mx)
+                    ELSE HMono(bs, i + 1, mx)
+\* sort.Search(n, f): f is given as the sequence f[1..n] (index h of the reference is h + 1 here)
+RECURSIVE HSearch(_, _, _)
+HSearch(i, j, f) == IF i >= j THEN i ELSE LET h == (i + j) \div 2 IN IF ~f[h + 1] THEN HSearch(h + 1, j, f) ELSE HSearch(i, h, f)
+BucketQuantile(q10, sorted) ==
+  IF q10.k = "nan" THEN NaNV
+  ELSE IF q10.k = "ninf" \/ (q10.k = "i" /\ q10.v < 0) THEN NInf
+  ELSE IF q10.k = "pinf" \/ (q10.k = "i" /\ q10.v > 10) THEN PInf
+  ELSE IF q10.k # "i" THEN Opaque
+  ELSE IF sorted[Len(sorted)].ub.k # "pinf" THEN NaNV
+  ELSE LET cb == HCoalesce(sorted)  mb == HMono(cb, 2, cb[1].c)  L == Len(mb) IN
+       IF L < 2 THEN NaNV
+       ELSE LET obs == mb[L].c IN
+            IF obs.k = "op" \/ (\E i \in 1..L : mb[i].c.k \notin {"i", "nan"} \/ (mb[i].c.k = "i" /\ Abs(mb[i].c.v) > Small)) THEN Opaque
+            ELSE IF obs.k = "i" /\ obs.v = 0 THEN NaNV
+            ELSE LET f == [i \in 1..(L - 1) |-> mb[i].c.k = "i" /\ obs.k = "i" /\ 10 * mb[i].c.v >= q10.v * obs.v]
+                     b == HSearch(0, L - 1, f) + 1           \* 1-based
+                 IN IF b = L THEN mb[L - 1].ub
+                    ELSE IF b = 1 /\ mb[1].ub.v <= 0 THEN mb[1].ub
+                    ELSE LET start == IF b > 1 THEN mb[b - 1].ub.v ELSE 0
+                             prev  == IF b > 1 THEN mb[b - 1].c ELSE I(0)
+                         IN IF prev.k # "i" THEN NaNV
+                            ELSE LET cnt == mb[b].c.v - prev.v
+                                     num == (mb[b].ub.v - start) * (q10.v * obs.v - 10 * prev.v)
+                                     den == 10 * cnt
+                                 IN IF cnt = 0 THEN NaNV
+                                    ELSE IF den > 0 /\ num >= 0 /\ num % den = 0 THEN I(start + num \div den) ELSE Opaque
+
 \* ------------------------------------------------------------------ evaluation
 Res(why, unk, vec) == [why |-> why, unk |-> unk, vec |-> vec]
 OK == {}
@@ -375,6 +423,20 @@ EvalFn(sc, i, t) ==
              v == MapVec(a.vec, LAMBDA e : [ls |-> DropName(e.ls), val |-> ClampMin(ClampMax(e.val, mx), mn)])
          IN IF inv = "T" THEN Res(a.why \cup b.why \cup c.why, a.unk \/ b.unk \/ c.unk, <<>>)
             ELSE Res(a.why \cup b.why \cup c.why \cup DupLS(v), a.unk \/ b.unk \/ c.unk \/ inv = "U", v)
+    [] n.fn = "histogram_quantile" ->
+         \* samples without a parsable le are skipped; the others are grouped by all their labels but le (the metric
+         \* name included); every group yields one sample without name and le - two groups of different metrics
+         \* with otherwise equal labels are duplicates
+         LET p == A(1)  a == A(2)
+             q10 == QTenths(pl[n.args[1]], SVal(p))
+             ok == SelectSeq(a.vec, LAMBDA e : LeParse(LGet(e.ls, "le")).k # "op")
+             keyOf(e) == LDrop(e.ls, {"le"})
+             ks == SetToSeq({keyOf(ok[x]) : x \in 1..Len(ok)})
+             bucketsOf(k) == SortSeq([y \in 1..Len(SelectSeq(ok, LAMBDA e : keyOf(e) = k)) |->
+                                        LET e == SelectSeq(ok, LAMBDA e2 : keyOf(e2) = k)[y] IN [ub |-> LeParse(LGet(e.ls, "le")), c |-> e.val]],
+                                     LAMBDA x, y : Cmp("<", x.ub, y.ub) = "T")
+             v == [x \in 1..Len(ks) |-> [ls |-> DropName(ks[x]), val |-> BucketQuantile(q10, bucketsOf(ks[x]))]]
+         IN Res(a.why \cup p.why \cup DupLS(v), a.unk \/ p.unk, v)
     [] OTHER -> Res(OK, TRUE, <<>>)
 
 EvalAgg(sc, i, t) ==
